@@ -343,6 +343,51 @@ def unit_get_fit_params(tier=None, seed=None):
     return S.finish(replay=replay_profile)
 
 
+def unit_get_fit_params_two_profiles(tier=None, seed=None):
+    """"the fit parameters returned are the selected model's defaults overridden by exactly the stored value/vary
+    entries" -- of THIS profile: a profile without stored entries, read after another profile with stored entries
+    was read in the same process, gets the plain model defaults"""
+    S = Session("C19", "Profile.get_fit_params.two_profiles", f"{MOD}:Profile.get_fit_params")
+    st = {"need_model_key": True}
+
+    def setup(I):
+        cls, path = _setup_module(I, st, "json", defaults_present=True)
+        model = st["mod"].env.vars["model"]
+        defaults, dt = sym_parameters(I, PN, prefix="def")
+        md = sx.Obj(sx.ClassVal("NaniteFitModel", [sx.OBJECT], {}))
+        # (the real get_parameter_defaults builds a new Parameters object on every call)
+        md.attrs["get_parameter_defaults"] = sx.Builtin("gpd", lambda I: I.lib["copy.deepcopy"](I, defaults))
+        model.env.vars["models_available"] = sx.SDict([("hertz_para", md)])
+        o = _profile_obj(st, I)
+        f, _ = cls.find("get_fit_params")
+        st.update(dt=dt)
+
+        def driver(I):
+            I.call(sx.BoundMethod(o, f), [], {})
+            # another profile file: same model, no fit parameter stored
+            fm = st["fm"]
+            for kk, e in fm.data.d.items():
+                if kk.startswith("fit param"):
+                    e[0] = False
+            o2 = _profile_obj(st, I)
+            return I.call(sx.BoundMethod(o2, f), [], {})
+        return sx.Builtin("two_profiles", driver), [], {}
+
+    def post(S, out):
+        if out.kind != "return":
+            S.fail("returns", repr(out))
+            return
+        S.ok("returns")
+        ps, dt = out.value, st["dt"]
+        for pn in PN:
+            a = ps.map.d[pn][1].attrs
+            S.ensure("second_profile_gets_the_model_defaults",
+                     z3.And(V.rterm(a["value"]) == dt[pn]["value"], V.bterm(a["vary"]) == dt[pn]["vary"]), witness=pn)
+
+    S.run(setup, post)
+    return S.finish(replay=replay_profile)
+
+
 # ------------------------------------------------------------------ native replays / bounded
 def replay_profile(ob):
     """two live Profile objects on one file + a new object: everything written is read back"""
@@ -671,6 +716,7 @@ def unit_canaries(tier=None, seed=None):
 def units(tier):
     us = [Unit("Profile.__setitem__", unit_setitem), Unit("Profile.__getitem__", unit_getitem),
           Unit("Profile.__init__", unit_init), Unit("Profile.get_fit_params", unit_get_fit_params),
+          Unit("Profile.get_fit_params.two_profiles", unit_get_fit_params_two_profiles),
           Unit("bounded.legacy_profiles", unit_bounded_legacy), Unit("bounded.interactive_setup", unit_bounded_setup),
           Unit("bounded.statistics_file", unit_bounded_statistics)]
     # "every profile the setup can produce is accepted by the batch fit": the setup relies on the order check of
